@@ -1,6 +1,5 @@
 //! C14 — fixed-base multiplication returns [s]G for canonical s only.
 
-use dusk_plonk::prelude::Error;
 use proptest::prelude::*;
 use serde::{Deserialize, Serialize};
 use serde_json::json;
@@ -163,7 +162,7 @@ fn check(ctx: &Ctx, c: &Case) -> PResult {
                 ctx.label("cross-checked with the real prover");
             }
         }
-        (Err(Error::JubJubScalarMalformed), false) => {}
+        (Err(_), false) => {}
         (Ok(_), false) => {
             return Err(Fail::new("mul-generator-accepts-non-canonical-scalar", format!("scalar {} >= r_J accepted by the entry point", fe_short(&s))))
         }
@@ -268,6 +267,9 @@ fn check(ctx: &Ctx, c: &Case) -> PResult {
                     continue;
                 }
                 let asg = twin.with(&[(idx, twin.wit[idx] + delta)]);
+                if gadget::maybe_cross(&twin, &asg, c.seed, off + i, 6, "fixed-base forged wire")? {
+                    ctx.label("forged wire cross-checked with the real prover");
+                }
                 ctx.add_evals(1);
                 ctx.label(&format!("forged wire: {fname}"));
                 let last = twin.trace.pts.len() - 1;
